@@ -503,6 +503,7 @@ class Normalizer:
                     break
             if self.propagated:
                 self._unroll_new_loops(node)      # a loop over a table that was held in a temporary
+        _inline_new_module_constants(node, self.module, self.known)
         _expand_partials(node, snap)
         _identity_comprehensions(node)
         _split_tuple_assignments(node)
@@ -516,6 +517,7 @@ class Normalizer:
                 if not p_ and not r_:
                     break
         if not os.environ.get("TYVERIF_NO_IFEXP"):
+            _distribute_calls_over_ifexp(node)
             _expand_ifexp_statements(node, self.known)
         if self.flatten:
             node.body = _flatten_else(node.body)
@@ -1201,3 +1203,51 @@ def coalesce_aliases(fnode, snapshot):
                     break
             if changed:
                 break
+
+
+def _inline_new_module_constants(fnode, module, known):
+    """a module-level NAME = <constant-like value> that is not in the snapshot (a literal hoisted into a named constant) is
+    written out where it is used"""
+    consts = {}
+    for st in module.tree.body:
+        if isinstance(st, ast.Assign) and len(st.targets) == 1 and isinstance(st.targets[0], ast.Name) and "<global>:" + st.targets[0].id not in known:
+            v = st.value
+            ok = isinstance(v, ast.Constant) or (isinstance(v, ast.Call) and isinstance(v.func, ast.Name) and v.func.id in ("slice", "frozenset", "tuple")
+                                               and all(isinstance(a, (ast.Constant, ast.UnaryOp)) for a in v.args) and not v.keywords) \
+                or (isinstance(v, (ast.Tuple, ast.List)) and all(isinstance(e, (ast.Constant, ast.Tuple)) for e in v.elts)) \
+                or (isinstance(v, ast.UnaryOp) and isinstance(v.operand, ast.Constant))
+            if ok:
+                consts[st.targets[0].id] = v
+    if not consts:
+        return
+    assigned = {n.id for n in ast.walk(fnode) if isinstance(n, ast.Name) and isinstance(n.ctx, (ast.Store, ast.Del))}
+    params = {a.arg for a in fnode.args.posonlyargs + fnode.args.args + fnode.args.kwonlyargs}
+    use = {k: v for k, v in consts.items() if k not in assigned and k not in params}
+    if use:
+        _Subst(use).visit(fnode)
+
+        class SL(ast.NodeTransformer):
+            def visit_Subscript(self, n):
+                self.generic_visit(n)
+                from .canon import _Canon
+                return _Canon.visit_Subscript(_NoVisit(), n)
+
+        class _NoVisit:
+            def generic_visit(self, n):
+                return n
+        SL().visit(fnode)
+
+
+def _distribute_calls_over_ifexp(fnode):
+    """(f if c else g)(args) -> f(args) if c else g(args), wherever it occurs"""
+    class R(ast.NodeTransformer):
+        def visit_Call(self, n):
+            self.generic_visit(n)
+            if isinstance(n.func, ast.IfExp):
+                fx = n.func
+                new = ast.IfExp(test=fx.test,
+                                body=ast.Call(func=fx.body, args=[clone(a) for a in n.args], keywords=[clone(k) for k in n.keywords]),
+                                orelse=ast.Call(func=fx.orelse, args=[clone(a) for a in n.args], keywords=[clone(k) for k in n.keywords]))
+                return ast.fix_missing_locations(ast.copy_location(new, n))
+            return n
+    R().visit(fnode)
